@@ -10,7 +10,7 @@ from . import engine as E
 
 STUBS = [
     'bytearray -> list-backed SymByteArray in bytecode.packed_bits, line_object, engine',
-    'int -> proxy-aware cast (always yields a proxy) in expression, utilities, bytecode.parts, model',
+    'int -> proxy-aware cast (always yields a proxy; isinstance(x, int) accepts proxies) in expression, utilities, bytecode.parts, model, line_object.data_line',
     'float/Fraction -> exact rational proxy (SymRat) in expression',
     'open(..., "w"/"wb") in engine -> in-memory capture (records every open and write)',
     'click.echo / print in engine -> no-op / capture',
@@ -100,6 +100,8 @@ def install():
     util.int = E.sym_int
     parts.int = E.sym_int
     model.int = E.sym_int
+    import bespokeasm.assembler.line_object.data_line as dl
+    dl.int = E.sym_int
     eng.open = _fake_open
     eng.click = _Click
     eng.print = _print
